@@ -15,7 +15,7 @@ meta = {
     "patch": "patch.diff",
     "demonstration": sorted(os.path.basename(f) for f in glob.glob(dst + "/*") if os.path.basename(f) not in ("patch.diff", "meta.json", "notes.md")),
     "needs_to_manifest": "see notes.md (written by the seeding sub-agent)",
-    "base_commit": "3e45851 (pristine snapshot)" if srcroot == "/tmp/seed" else ("round 3" if "seed3" in srcroot else "round 2") + ": /repo HEAD with the fix commits at the time of seeding (patch applies to the repaired tree)",
+    "base_commit": "3e45851 (pristine snapshot)" if srcroot == "/tmp/seed" else ("round 4" if "seed4" in srcroot else "round 3" if "seed3" in srcroot else "round 2") + ": /repo HEAD with the fix commits at the time of seeding (patch applies to the repaired tree)",
     "confirmed": "patch applies to /repo (git apply, --3way where my fix commits touch the same file), harness builds; suite and demonstration confirmed by tools/confirmseed.py in a scratch worktree (see self_confirmed); check result below obtained with tools/seedtest.sh",
     "check_result": status,
     "detected_by": detected,
